@@ -42,6 +42,10 @@ CLAIMED = {
          "Exploration. Generated lists over every DW_RLE_*/DW_LLE_* kind, the legacy pair format and the GNU split-DWARF location encoding with boundary addresses, address tables and offset tables behind non-zero bases are checked entry by entry: raw iteration against the encoded entries, cooked iteration against the model, and the per-entry/per-unit helpers (die_ranges, unit_ranges, attr_ranges_offset, attr_locations, ranges_offset_from_raw) through a generated unit. For arbitrary bytes every yielded range must be non-empty and below the tombstones and the iterators must finish within a bound. Both build profiles.",
          "Trusts the list model and encoders in harness/src/c08.rs (DESIGN appendix A.4) and the DIE assembler. gimli's documented tombstone/empty-range filtering is part of the model.",
          "DESIGN.md §4 C08, appendix A.4"),
+ 'C05': ("exhaustive sweep of all 256 pointer-encoding bytes + proptest random frame sections from an independent CIE/FDE/.eh_frame_hdr assembler; oracle = assembler record + pointer-encoding model; lookup = exhaustive scan differential",
+         "Exploration. All 256 DW_EH_PE bytes are decoded under every byte order, address size and base-address subset and compared (value or the specific rejection) with the model; generated sections with every augmentation subset, generated encodings for R/L/P, FDEs before/after/sharing their CIEs, 32/64-bit entries and terminators are iterated and every field compared; address lookups by linear search, by direct unwind-info query and through generated .eh_frame_hdr binary-search tables of every supported entry format must equal an exhaustive scan of the model at and around every FDE boundary. Both build profiles.",
+         "Trusts the frame assembler in harness/src/cfimodel.rs and the pointer model in c05.rs (LSB eh_frame spec). The hdr table is built sorted and consistent; cases whose generated FDE ranges overlap are excluded from the table clause.",
+         "DESIGN.md §4 C05"),
 }
 NOT_YET = "check not built yet in this session (machinery is being extended property by property; see DESIGN.md §4)"
 
